@@ -266,7 +266,21 @@ def _foldable(t):
     return out
 
 
+def _has_constant_predicate(t):
+    """A predicate without any field in it (1 eq 1, null eq 2.5, true): an ORM folds it and may
+    drop whole sibling conditions with it, so completeness cannot be judged from the SQL."""
+    for x in walk(t):
+        if x[0] in ("cmp", "call") and not any(y[0] in ("id", "path", "lambda") for y in walk(x)):
+            if x[0] == "cmp" or x[1] in ("contains", "startswith", "endswith"):
+                return True
+        if x[0] in ("bool", "un") and any(c[0] == "lit" for c in children(x)):
+            return True
+    return False
+
+
 def _orm_complete(t, sql, params):
+    if _has_constant_predicate(t):
+        return None
     ptxt = [str(p) for p in params]
     low = sql.lower()
     foldable = _foldable(t)
